@@ -804,3 +804,92 @@ type coinsPredDef struct {
 	P, A *Term
 	Each func(*Term) *Term
 }
+
+// AccountVal: result of AccountKeeper.GetAccount (an AccountI that may be nil).
+type AccountVal struct {
+	Addr   *Term
+	Exists *Term
+}
+
+func init() {
+	theory["AccountKeeper.GetAccount"] = func(x *Exec, f *Frame, st *State, c *CallInfo) Val {
+		return &AccountVal{Addr: c.T(2), Exists: UF("account_exists", SBool, c.T(2))}
+	}
+	for _, n := range []string{"AccountI", "ModuleAccountI"} {
+		theory[n+".GetAddress"] = func(x *Exec, f *Frame, st *State, c *CallInfo) Val {
+			if av, ok := c.Args[0].(*AccountVal); ok {
+				return av.Addr
+			}
+			return x.freshTerm("accaddr", SBytes)
+		}
+	}
+	theory["AccountKeeper.GetModuleAccount"] = func(x *Exec, f *Frame, st *State, c *CallInfo) Val {
+		return &AccountVal{Addr: moduleAddr(c.T(2)), Exists: True}
+	}
+	theory["github.com/cometbft/cometbft/crypto.AddressHash"] = func(x *Exec, f *Frame, st *State, c *CallInfo) Val {
+		var b *Term
+		switch v := c.Args[0].(type) {
+		case *Term:
+			b = v
+		case *EncVal:
+			b = v.V
+		}
+		if b == nil || b.Sort != SBytes {
+			return x.freshTerm("addrhash", SBytes)
+		}
+		a := UF("address_hash", SBytes, b)
+		st.assume(And(Neq(a, BytesNil), Not(UF("bytes_empty", SBool, a))))
+		return a
+	}
+	theory["(*math/big.Int).Sqrt"] = func(x *Exec, f *Frame, st *State, c *CallInfo) Val {
+		n := c.T(1)
+		x.panicSite(f, st, Lt(n, IntLit(0)), "big.Int.Sqrt of negative at "+c.Pos)
+		r := x.freshTerm("isqrt", SInt)
+		st.assume(And(Ge(r, IntLit(0)), Le(Mul(r, r), n), Lt(n, Mul(Add(r, IntLit(1)), Add(r, IntLit(1))))))
+		if pv, ok := c.Args[0].(*PtrVal); ok {
+			x.store(st, pv, r)
+		}
+		return c.Args[0]
+	}
+	theory["strconv.FormatBool"] = func(x *Exec, f *Frame, st *State, c *CallInfo) Val { return UF("fmt_bool", SStr, c.T(0)) }
+	theory["strconv.FormatUint"] = func(x *Exec, f *Frame, st *State, c *CallInfo) Val { return UF("fmt_uint", SStr, c.T(0)) }
+	theory["strconv.FormatInt"] = func(x *Exec, f *Frame, st *State, c *CallInfo) Val { return UF("fmt_int", SStr, c.T(0)) }
+	theory["strconv.Itoa"] = func(x *Exec, f *Frame, st *State, c *CallInfo) Val { return UF("fmt_int", SStr, c.T(0)) }
+}
+
+const nanos = 1000000000
+
+func init() {
+	theory[pCtx+"BlockHeader"] = func(x *Exec, f *Frame, st *State, c *CallInfo) Val {
+		s := SortOf(c.ResTyp)
+		if s == nil || s.Kind != KData {
+			return x.freshVal(st, c.ResTyp, "header")
+		}
+		h := Sym("w0_header", s)
+		if i := s.FieldIndex("Time"); i >= 0 {
+			h = WithField(h, i, st.world.get("time"))
+		}
+		if i := s.FieldIndex("Height"); i >= 0 {
+			h = WithField(h, i, st.world.get("height"))
+		}
+		return h
+	}
+	theory[pCtx+"HeaderHash"] = func(x *Exec, f *Frame, st *State, c *CallInfo) Val { return Sym("w0_headerhash", SBytes) }
+	theory["time.Unix"] = func(x *Exec, f *Frame, st *State, c *CallInfo) Val {
+		return Add(Mul(c.T(0), IntLit(nanos)), c.T(1))
+	}
+	theory["(time.Time).After"] = intBin(Gt)
+	theory["(time.Time).Before"] = intBin(Lt)
+	theory["(time.Time).Equal"] = intBin(Eq)
+	theory["(time.Time).Sub"] = intBin(Sub)
+	theory["(time.Time).Add"] = intBin(Add)
+	theory["(time.Time).Unix"] = func(x *Exec, f *Frame, st *State, c *CallInfo) Val { return EDiv(c.T(0), IntLit(nanos)) }
+	theory["(time.Time).UnixNano"] = func(x *Exec, f *Frame, st *State, c *CallInfo) Val { return c.T(0) }
+	theory["(time.Time).IsZero"] = func(x *Exec, f *Frame, st *State, c *CallInfo) Val {
+		return UF("time_iszero", SBool, c.T(0))
+	}
+	theory["(time.Time).UTC"] = func(x *Exec, f *Frame, st *State, c *CallInfo) Val { return c.T(0) }
+	theory["(time.Duration).Seconds"] = func(x *Exec, f *Frame, st *State, c *CallInfo) Val {
+		return App("/", SReal, App("to_real", SReal, c.T(0)), App("to_real", SReal, IntLit(nanos)))
+	}
+}
